@@ -29,7 +29,7 @@
 (* and compares.  The Inv_C18_* invariants are the claims, checked on every *)
 (* state.                                                                   *)
 (***************************************************************************)
-EXTENDS Integers, Sequences, FiniteSets, TLC, Json
+EXTENDS Integers, Sequences, FiniteSets, TLC, Json, GeometryPartition
 
 CONSTANTS XMin, XMax,     \* x extent of the lattice
           Rows,           \* sequence of <<y, z>>, ascending in (z, y)
@@ -137,6 +137,26 @@ InSpan(q, run) == /\ q[1] >= run[1] * RoiBlock[1] /\ q[1] <= (run[1] + run[3]) *
 
 Spans(c) == LET rs == Runs(c) IN [i \in 1..Len(rs) |-> <<Z(rs[i][2]), Y(rs[i][2]), rs[i][1], rs[i][1] + rs[i][3] - 1>>]
 
+\* The same region posted with OVERLAPPING spans: every span of two or more blocks is followed
+\* by a second span that repeats its last block, and one of three or more blocks by a third that
+\* repeats its inner blocks.  A region is the union of its spans, so every query must be
+\* answered as for Spans(c).
+Overlay(c) == LET rs == Runs(c)
+                  Extra(run) == (IF run[3] >= 2 THEN << <<Z(run[2]), Y(run[2]), run[1] + run[3] - 1, run[1] + run[3] - 1>> >> ELSE << >>)
+                                \o (IF run[3] >= 3 THEN << <<Z(run[2]), Y(run[2]), run[1] + 1, run[1] + run[3] - 2>> >> ELSE << >>)
+                  RECURSIVE Extras(_)
+                  Extras(i) == IF i > Len(rs) THEN << >> ELSE Extra(rs[i]) \o Extras(i + 1)
+              IN  Spans(c) \o Extras(1)
+SpanHas(q, sp) == /\ q[1] >= sp[3] * RoiBlock[1] /\ q[1] <= (sp[4] + 1) * RoiBlock[1] - 1
+                  /\ q[2] >= sp[2] * RoiBlock[2] /\ q[2] <= (sp[2] + 1) * RoiBlock[2] - 1
+                  /\ q[3] >= sp[1] * RoiBlock[3] /\ q[3] <= (sp[1] + 1) * RoiBlock[3] - 1
+
+\* the blocks of the region and their extent in Z (advertised by the instance as MinZ / MaxZ)
+RoiBlocks == {<<v[1], Y(v[2]), Z(v[2])>> : v \in V}
+ZRange == IF V = {} THEN << >> ELSE <<SetMin({b[3] : b \in RoiBlocks}), SetMax({b[3] : b \in RoiBlocks})>>
+\* batch sizes of the partition requests
+PartBatch == {1, 2, 3}
+
 (***************************************************************************)
 (* Behaviours: every presentation is reachable (Grow); every operation is a *)
 (* transition to the canonical presentation of its result.                  *)
@@ -207,6 +227,15 @@ Inv_C18_Fit ==
 Inv_C18_Roi ==
     EmitRoi => LET rs == Runs(code) IN \A q \in QPoints : Member(q) <=> \E i \in 1..Len(rs) : InSpan(q, rs[i])
 
+\* ROI posted with overlapping spans: membership by the spans' voxel extents is unchanged
+Inv_C18_RoiOverlap ==
+    EmitRoi => LET os == Overlay(code) IN \A q \in QPoints : Member(q) <=> \E i \in 1..Len(os) : SpanHas(q, os[i])
+
+\* ROI partition: the intended default partition satisfies the claims for every region of the
+\* lattice and every batch size (module GeometryPartition)
+Inv_C18_PartitionDesign ==
+    EmitRoi => \A k \in PartBatch : PartitionOK(RoiBlocks, GridPartition(RoiBlocks, k))
+
 (***************************************************************************)
 (* Printer                                                                  *)
 (***************************************************************************)
@@ -222,6 +251,9 @@ Emit ==
        fit   |-> [i \in 1..Len(Bounds) |-> MaskOf(FitSet(V, Bounds[i]))],
        add   |-> [k \in 1..NMasks |-> MaskOf(AddSet(V, MaskSet(k)))],
        spans |-> IF EmitRoi THEN Spans(code) ELSE <<>>,
+       ospans |-> IF EmitRoi THEN Overlay(code) ELSE <<>>,
+       blocks |-> IF EmitRoi THEN RoiBlocks ELSE {},
+       zr    |-> IF EmitRoi THEN ZRange ELSE <<>>,
        members |-> IF EmitRoi THEN {q \in QPoints : Member(q)} ELSE {}]))
 
 \* the operands of Add, printed once (in the empty state)
